@@ -42,7 +42,7 @@ class _ParsedGrammar:
         self.body = body
 
 
-def _parse_grammar(description):
+def _parse_grammar(description, super_module=None):
     tree = parser.parse(description)
     assert isinstance(tree, parser.GrammarDef)
     head, body = tree.head, tree.body
@@ -62,8 +62,13 @@ def _parse_grammar(description):
     if head is None or head.extends is None:
         extends = None
     else:
-        module = importlib.import_module(head.extends)
-        extends = _parse_grammar(module.__doc__)
+        # The grammars that an existing module extends are the modules it was
+        # built on, whatever their names denote by now.
+        module = super_module or importlib.import_module(head.extends)
+        extends = _parse_grammar(
+            module.__doc__,
+            getattr(module, '_super_module', None),
+        )
 
     return _ParsedGrammar(
         name=None if head is None else head.name,
